@@ -103,6 +103,13 @@ class Observer:
         self.log.append((float(model.t), np.array(model.x, copy=True)))
 
 
+class StopRun(Exception):
+    pass
+
+
+STEP_CAP = 250
+
+
 class WrapIter:
     """iterator with the public iterator signature that forwards to the repository's own iterator and
     records what goes in and what comes out"""
@@ -113,6 +120,8 @@ class WrapIter:
         self.log = []
 
     def __call__(self, f, t, X, updateX):
+        if len(self.log) >= STEP_CAP:
+            raise StopRun()
         X0 = np.array(X, copy=True)
         i0 = len(self.model.fluxlog)
         Xn, dt = self.it(f, t, X, updateX)
@@ -143,8 +152,8 @@ def logging_class(kind):
 def tfunc(spec):
     kind = spec[0]
     if kind == 'func':
-        _, T0, gz, rt_ = spec
-        return lambda z, t: T0 + gz * np.asarray(z) + rt_ * t
+        _, T0, gz, dT, tau = spec
+        return lambda z, t: T0 + gz * np.asarray(z) + dT * t / (t + tau)
     raise ValueError(kind)
 
 
@@ -211,7 +220,8 @@ def gen_cfg(rng, quick, force=None):
         stub = {'scale': float(10 ** rng.uniform(-19, -16)), 'skew': float(rng.uniform(0, 3))}
     Tspec = [['iso', float(rng.uniform(600, 1600))],
              ['array', [0.0, float(rng.uniform(0.1, 10)), float(rng.uniform(20, 100))], [float(rng.uniform(700, 1500)) for _ in range(3)]],
-             ['func', float(rng.uniform(800, 1200)), float(rng.uniform(-50, 50) / span), float(rng.uniform(-1e-4, 1e-4))]][int(rng.choice(3, p=[0.5, 0.2, 0.3]))]
+             ['func', float(rng.uniform(800, 1200)), float(rng.uniform(-50, 50) / max(abs(zlim[0]), abs(zlim[1]))), float(rng.uniform(-100, 100)),
+              float(10 ** rng.uniform(2, 6))]][int(rng.choice(3, p=[0.5, 0.2, 0.3]))]
     bc = {}
     for e in els[1:]:
         d = {}
@@ -342,6 +352,9 @@ def run_cfg(cfg):
             n0 = len(it.log)
             m.solve(simTime, solverType=it, maxDtFrac=cfg['maxDtFrac'])
             rec['calls'].append((n0, len(it.log)))
+    except StopRun:
+        rec['calls'].append((n0, len(it.log)))
+        rec['truncated'] = True
     except Exception as e:
         rec['err'] = '%s: %s' % (type(e).__name__, e)
     rec['model'], rec['obs'], rec['it'] = m, obs, it
